@@ -371,3 +371,251 @@ theorem checkServer_migrate (s : Server) : checkServer s.migrate = checkServer s
   rfl
 
 end SSV.Config
+
+namespace SSV.Config
+open SSV.Gen
+
+theorem checkClients_map (f : Client → Client) (hname : ∀ k, (f k).name = k.name)
+    (hchk : ∀ k, checkClient (f k) = checkClient k) :
+    ∀ (l : List Client) (seen : List String), checkClients seen (l.map f) = checkClients seen l
+  | [], _ => rfl
+  | k :: ks, seen => by
+    simp only [List.map_cons]
+    unfold checkClients
+    rw [hname, hchk, checkClients_map f hname hchk ks (k.name :: seen)]
+
+theorem map_cname_eq {f : Client → Client} (hname : ∀ k, (f k).name = k.name) :
+    ∀ l : List Client, (l.map f).map (·.name) = l.map (·.name)
+  | [] => rfl
+  | a :: as => by
+    simp only [List.map_cons, hname, map_cname_eq hname as]
+
+theorem tcpNamesOf_map (f : Client → Client) (hname : ∀ k, (f k).name = k.name)
+    (htcp : ∀ k, (f k).enableTCP = k.enableTCP) : ∀ l : List Client, tcpNamesOf (l.map f) = tcpNamesOf l
+  | [] => rfl
+  | k :: ks => by
+    have ih := tcpNamesOf_map f hname htcp ks
+    unfold tcpNamesOf at ih ⊢
+    simp only [List.map_cons, List.filter_cons, htcp]
+    cases h : k.enableTCP <;> simp [hname, ih]
+
+theorem udpNamesOf_map (f : Client → Client) (hname : ∀ k, (f k).name = k.name)
+    (hudp : ∀ k, (f k).enableUDP = k.enableUDP) : ∀ l : List Client, udpNamesOf (l.map f) = udpNamesOf l
+  | [] => rfl
+  | k :: ks => by
+    have ih := udpNamesOf_map f hname hudp ks
+    unfold udpNamesOf at ih ⊢
+    simp only [List.map_cons, List.filter_cons, hudp]
+    cases h : k.enableUDP <;> simp [hname, ih]
+
+/-- `validate` sees the clients only through name, enableTCP/enableUDP and `checkClient` -/
+theorem validate_congr_clients (c : Config) (f : Client → Client) (hname : ∀ k, (f k).name = k.name)
+    (htcp : ∀ k, (f k).enableTCP = k.enableTCP) (hudp : ∀ k, (f k).enableUDP = k.enableUDP)
+    (hchk : ∀ k, checkClient (f k) = checkClient k) :
+    validate { c with clients := c.clients.map f } = validate c := by
+  obtain ⟨servers, clients, groups, resolvers, router⟩ := c
+  cases clients with
+  | nil => rfl
+  | cons k ks =>
+    have h1 := checkClients_map f hname hchk (k :: ks) []
+    have h2 := map_cname_eq hname (k :: ks)
+    have h3 := tcpNamesOf_map f hname htcp (k :: ks)
+    have h4 := udpNamesOf_map f hname hudp (k :: ks)
+    unfold validate effectiveClients
+    simp only [List.map_cons, List.isEmpty_cons, Bool.false_eq_true, if_false] at h1 h2 h3 h4 ⊢
+    simp only [h1, h2, h3, h4]
+
+end SSV.Config
+
+namespace SSV.Config
+open SSV.Gen
+
+theorem all_mem_of_guard {l names : List String} (h : ¬ (!l.isEmpty && !l.all names.contains) = true) :
+    ∀ m ∈ l, m ∈ names := by
+  intro m hm
+  cases hl : l with
+  | nil => rw [hl] at hm; cases hm
+  | cons a as =>
+    rw [hl] at h hm
+    have h' : (a :: as).all names.contains = true := by simpa using h
+    have := List.all_eq_true.mp h' m hm
+    simpa using this
+
+theorem addGroup_ok {g : Group} {tcp udp tcp' udp' : List String} (h : addGroup g tcp udp = .ok (tcp', udp')) :
+    (∀ m ∈ g.tcpClients, m ∈ tcp) ∧ (∀ m ∈ g.udpClients, m ∈ udp) ∧ (∀ n ∈ tcp, n ∈ tcp') ∧ (∀ n ∈ udp, n ∈ udp') := by
+  unfold addGroup at h
+  split at h
+  · cases h
+  · split at h
+    · cases h
+    · rename_i h2
+      split at h
+      · cases h
+      · simp only at h
+        split at h
+        · cases h
+        · rename_i h4
+          split at h
+          · cases h
+          · injection h with h
+            injection h with ht hu
+            refine ⟨all_mem_of_guard h2, all_mem_of_guard h4, ?_, ?_⟩
+            · intro n hn
+              rw [← ht]
+              split
+              · exact hn
+              · exact List.mem_cons_of_mem _ hn
+            · intro n hn
+              rw [← hu]
+              split
+              · exact hn
+              · exact List.mem_cons_of_mem _ hn
+
+theorem checkGroups_ok {cn : List String} :
+    ∀ {gs : List Group} {seen tcp udp tcp' udp' : List String}, checkGroups cn seen gs tcp udp = .ok (tcp', udp') →
+      (gs.map (·.name)).Nodup ∧ (∀ g ∈ gs, g.name ∉ seen ∧ g.name ∉ cn) ∧
+      (∀ g ∈ gs, (∀ m ∈ g.tcpClients, m ∈ tcp') ∧ (∀ m ∈ g.udpClients, m ∈ udp')) ∧
+      (∀ n ∈ tcp, n ∈ tcp') ∧ (∀ n ∈ udp, n ∈ udp')
+  | [], _, _, _, _, _, h => by
+    unfold checkGroups at h
+    injection h with h
+    injection h with ht hu
+    subst ht; subst hu
+    exact ⟨List.nodup_nil, (fun _ hg => by cases hg), (fun _ hg => by cases hg), (fun _ hn => hn), (fun _ hn => hn)⟩
+  | g :: gs, seen, tcp, udp, tcp', udp', h => by
+    unfold checkGroups at h
+    split at h
+    · cases h
+    · rename_i h1
+      split at h
+      · cases h
+      · rename_i h2
+        split at h
+        · cases h
+        · rename_i t1 u1 h3
+          have ⟨a1, a2, a3, a4⟩ := addGroup_ok h3
+          have ⟨nd, ns, mem, mt, mu⟩ := checkGroups_ok h
+          have hcn : g.name ∉ cn := by simpa using h1
+          have hseen : g.name ∉ seen := by simpa using h2
+          refine ⟨?_, ?_, ?_, (fun n hn => mt n (a3 n hn)), (fun n hn => mu n (a4 n hn))⟩
+          · simp only [List.map_cons]
+            refine List.nodup_cons.mpr ⟨?_, nd⟩
+            intro hmem
+            obtain ⟨d, hd, hdn⟩ := List.mem_map.mp hmem
+            exact (ns d hd).1 (by rw [hdn]; exact List.mem_cons_self)
+          · intro d hd
+            cases hd with
+            | head => exact ⟨hseen, hcn⟩
+            | tail _ hd' => exact ⟨fun hs => (ns d hd').1 (List.mem_cons_of_mem _ hs), (ns d hd').2⟩
+          · intro d hd
+            cases hd with
+            | head => exact ⟨fun m hm => mt m (a3 m (a1 m hm)), fun m hm => mu m (a4 m (a2 m hm))⟩
+            | tail _ hd' => exact mem d hd'
+
+end SSV.Config
+
+namespace SSV.Config
+open SSV.Gen
+
+theorem checkResolver_ok {r : Resolver} {tcp udp : List String} (h : checkResolver r tcp udp = .ok ()) :
+    (r.tcpClient ≠ "" → r.tcpClient ∈ tcp) ∧ (r.udpClient ≠ "" → r.udpClient ∈ udp) := by
+  unfold checkResolver at h
+  split at h
+  · split at h
+    · cases h
+    · rename_i hx
+      refine ⟨fun ht => ?_, fun hu => ?_⟩
+      · exfalso; apply hx; simp [ht]
+      · exfalso; apply hx; simp [hu]
+  · split at h
+    · cases h
+    · split at h
+      · cases h
+      · split at h
+        · cases h
+        · split at h
+          · cases h
+          · rename_i h4
+            split at h
+            · cases h
+            · rename_i h5
+              refine ⟨fun ht => ?_, fun hu => ?_⟩
+              · by_cases hm : r.tcpClient ∈ tcp
+                · exact hm
+                · exfalso; apply h4; simp [ht, hm]
+              · by_cases hm : r.udpClient ∈ udp
+                · exact hm
+                · exfalso; apply h5; simp [hu, hm]
+
+end SSV.Config
+
+namespace SSV.Config
+open SSV.Gen
+
+theorem addGroup_sub {g : Group} {tcp udp tcp' udp' : List String} (h : addGroup g tcp udp = .ok (tcp', udp')) :
+    (∀ n ∈ tcp', n = g.name ∨ n ∈ tcp) ∧ (∀ n ∈ udp', n = g.name ∨ n ∈ udp) := by
+  unfold addGroup at h
+  split at h
+  · cases h
+  · split at h
+    · cases h
+    · split at h
+      · cases h
+      · simp only at h
+        split at h
+        · cases h
+        · split at h
+          · cases h
+          · injection h with h
+            injection h with ht hu
+            refine ⟨?_, ?_⟩
+            · intro n hn
+              rw [← ht] at hn
+              split at hn
+              · exact Or.inr hn
+              · cases hn with
+                | head => exact Or.inl rfl
+                | tail _ hn' => exact Or.inr hn'
+            · intro n hn
+              rw [← hu] at hn
+              split at hn
+              · exact Or.inr hn
+              · cases hn with
+                | head => exact Or.inl rfl
+                | tail _ hn' => exact Or.inr hn'
+
+theorem checkGroups_sub {cn : List String} :
+    ∀ {gs : List Group} {seen tcp udp tcp' udp' : List String}, checkGroups cn seen gs tcp udp = .ok (tcp', udp') →
+      (∀ n ∈ tcp', n ∈ tcp ∨ n ∈ gs.map (·.name)) ∧ (∀ n ∈ udp', n ∈ udp ∨ n ∈ gs.map (·.name))
+  | [], _, _, _, _, _, h => by
+    unfold checkGroups at h
+    injection h with h
+    injection h with ht hu
+    subst ht; subst hu
+    exact ⟨fun _ hn => Or.inl hn, fun _ hn => Or.inl hn⟩
+  | g :: gs, seen, tcp, udp, tcp', udp', h => by
+    unfold checkGroups at h
+    split at h
+    · cases h
+    · split at h
+      · cases h
+      · split at h
+        · cases h
+        · rename_i t1 u1 h3
+          have ⟨a1, a2⟩ := addGroup_sub h3
+          have ⟨b1, b2⟩ := checkGroups_sub h
+          refine ⟨?_, ?_⟩
+          · intro n hn
+            rcases b1 n hn with h1 | h1
+            · rcases a1 n h1 with h2 | h2
+              · exact Or.inr (by simp [h2])
+              · exact Or.inl h2
+            · exact Or.inr (by simp only [List.map_cons]; exact List.mem_cons_of_mem _ h1)
+          · intro n hn
+            rcases b2 n hn with h1 | h1
+            · rcases a2 n h1 with h2 | h2
+              · exact Or.inr (by simp [h2])
+              · exact Or.inl h2
+            · exact Or.inr (by simp only [List.map_cons]; exact List.mem_cons_of_mem _ h1)
+
+end SSV.Config
